@@ -143,6 +143,8 @@ class CFG:
                 return
             handlers = frame["handlers"]
             for hnode, names in handlers:
+                if names == []:
+                    continue   # `except ():` catches nothing
                 if names is None or (set(names) & CATCH_ALL):
                     self._edge(node, hnode, "exc")
                     return  # caught for sure
@@ -233,7 +235,11 @@ class CFG:
             n = self._new("raise", s)
             self.stmt_node[id(s)] = n
             self._connect(preds, n)
-            self._exc_edges(n, s, ctx)
+            if s.exc is None and ctx.handler_stack and ctx.handler_stack[-1] and "?" not in ctx.handler_stack[-1] and not (set(ctx.handler_stack[-1]) & CATCH_ALL):
+                # a bare `raise` in `except (A, B):` re-raises an instance of A or B: an enclosing handler of A / B catches it
+                self._route_exception(n, set(ctx.handler_stack[-1]), ctx.trystack)
+            else:
+                self._exc_edges(n, s, ctx)
             return []
         if isinstance(s, ast.Break):
             n = self._new("break", s)
@@ -289,7 +295,9 @@ class CFG:
             body_out = self._block(s.orelse, body_out, ctx)
         outs = list(body_out)
         for (hn, names), h in zip(hnodes, s.handlers):
+            ctx.handler_stack.append(names)
             outs += self._block(h.body, [(hn, "n")], ctx)
+            ctx.handler_stack.pop()
         if fin_frame is not None:
             ctx.trystack.pop()
             self._connect(outs, fin_frame["entry"])
@@ -383,6 +391,7 @@ class _Ctx:
     def __init__(self):
         self.loops = []
         self.trystack = []
+        self.handler_stack = []   # names caught by the except clauses whose bodies enclose the current statement
 
 
 def stmt_nodes(cfg):
